@@ -344,7 +344,7 @@ inline OpResult apply_op(int op, Canvas& T, Canvas& O, const int64_t* a, const s
       // independent bilinear reference at the exact rational source position; the result may be the
       // truncation of a value up to one below it (phosg truncates a double sum)
       std::vector<uint64_t> got = raw_pixels(T.img);
-      uint64_t M = T.m.maxv();
+      uint64_t M = T.m.mask();
       for (int64_t yy = 0; yy < h; yy++) {
         for (int64_t xx = 0; xx < w; xx++) {
           long double fx = static_cast<long double>(xx) * (esw - 1) / (w - 1), fy = static_cast<long double>(yy) * (esh - 1) / (h - 1);
@@ -388,6 +388,10 @@ inline void check_canvases(Canvas& T, Canvas& O, int op, const char* stage) {
   std::string d = diff(T.img, T.m);
   VCHECK(d.empty(), cat("pixels:", op_name(op)), stage, ": target after ", op_name(op), ": ", d);
   d = diff(O.img, O.m);
+  VCHECK(d.empty(), cat("other-canvas-changed:", op_name(op)), stage, ": the other canvas after ", op_name(op), ": ", d);
+  d = max_value_diff(T.img, T.m);
+  VCHECK(d.empty(), cat("max-value:", op_name(op)), stage, ": target after ", op_name(op), ": ", d);
+  d = max_value_diff(O.img, O.m);
   VCHECK(d.empty(), cat("other-canvas-changed:", op_name(op)), stage, ": the other canvas after ", op_name(op), ": ", d);
 }
 
